@@ -18,6 +18,9 @@ PANS = ('<?xml version="1.0"?>\n<config><devices><entry><vsys><entry name="vsys1
         '</rules></security></rulebase>\n<service-group><entry name="sg1"><members><member>sg1</member></members></entry></service-group>\n'
         '</entry></vsys></entry></devices></config>\n')
 
+NRULE = ('{"resource_type":"Rule","id":"r1","scope":["/infra/tier-0s/v1"],"direction":"OUT","ip_protocol":"IPV4","sequence_number":20,"action":"ALLOW",'
+         '"source_groups":["/infra/domains/default/groups/Netspoc-g0"],"destination_groups":["10.2.1.10"],"services":["ANY"]}')
+
 CASES = [
     # (name, model, device, netspoc, raw)
     ('acl-ends-after-permit', 'ASA', 'access-list a extended permit\n', '', None),
@@ -76,6 +79,10 @@ CASES = [
     ('nsx-null-service', 'NSX', '', '{"services":[null]}', None),
     ('nsx-null-service-entry', 'NSX', '{"services":[{"id":"Netspoc-s","service_entries":[null]}]}', '', None),
     ('nsx-null-in-raw', 'NSX', '', '{"policies":[]}', '{"policies":[{"id":"Netspoc-v1","rules":[null]}]}'),
+    ('nsx-undefined-group', 'NSX', '{"groups":[{"id":"Netspoc-g0","expression":[{"id":"id","resource_type":"IPAddressExpression","ip_addresses":["10.1.1.10","10.1.1.20"]}]}],'
+     '"policies":[{"id":"Netspoc-v1","rules":[' + NRULE + ']}]}', '{"groups":null,"policies":[{"id":"Netspoc-v1","rules":[' + NRULE + ']}]}', None),
+    ('nsx-group-without-address', 'NSX', '', '{"groups":[{"id":"Netspoc-g0","expression":[{"id":"id","resource_type":"IPAddressExpression","ip_addresses":null}]}],'
+     '"policies":[{"id":"Netspoc-v1","rules":[' + NRULE + ']}]}', None),
     ('panos-group-member-of-itself', 'PAN-OS', PAN % ('g1', 'g1', ''), PAN % ('g1', 'g1', ''), None),
     ('panos-groups-in-a-circle', 'PAN-OS', '', PAN % ('g1', 'g2', '<entry name="g2"><static><member>g1</member></static></entry>'), None),
     ('panos-service-group-member-of-itself', 'PAN-OS', '', PANS, None),
